@@ -40,6 +40,7 @@ Inductive compat_value := CvNull | CvOther.
 Record compat_vardef := { cv_ty : tref; cv_default : option compat_value }.
 Record compat_usage := { cu_ty : tref; cu_default : option compat_value }.
 
+Definition compat_is_null (v : compat_value) : bool := match v with CvNull => true | CvOther => false end.
 Definition compat_is_some {A} (o : option A) : bool := match o with Some _ => true | None => false end.
 
 (* validation/variable.rs is_variable_usage_allowed *)
@@ -47,7 +48,8 @@ Definition compat_usage_allowed (variable_def : compat_vardef) (variable_usage :
   let variable_ty := cv_ty variable_def in
   let location_ty := cu_ty variable_usage in
   if compat_is_non_null location_ty && negb (compat_is_non_null variable_ty) then
-    let has_non_null_default_value := compat_is_some (cv_default variable_def) in
+    let has_non_null_default_value :=                       (* .as_ref().is_some_and(|value| !value.is_null()) *)
+      match cv_default variable_def with Some value => negb (compat_is_null value) | None => false end in
     let has_location_default_value := compat_is_some (cu_default variable_usage) in
     if negb has_non_null_default_value && negb has_location_default_value then false
     else compat_is_assignable_to variable_ty (compat_nullable location_ty)
@@ -187,8 +189,21 @@ Definition UnionMembersAreObjects (types : list (str * compat_tydef)) : Prop :=
   forall u members m, compat_types_get types u = Some (CtUnion members) -> In m members ->
     exists impls, compat_types_get types m = Some (CtObject impls).
 
-(* the known defect class D13: a `null` variable default where the spec looks for a non-null one *)
-Definition compat_known_null_default (d : compat_vardef) (u : compat_usage) : bool :=
+(* is_variable_usage_allowed as it was before commit 19b3359 ("fix: a null default value does not make a
+   nullable variable usable in a non-null position", DESIGN.md D13): `default_value.is_some()`.
+   Kept only for the witness lemma C29_usage_old_refuted; not extracted, not tied. *)
+Definition compat_usage_allowed_old (variable_def : compat_vardef) (variable_usage : compat_usage) : bool :=
+  let variable_ty := cv_ty variable_def in
+  let location_ty := cu_ty variable_usage in
+  if compat_is_non_null location_ty && negb (compat_is_non_null variable_ty) then
+    let has_non_null_default_value := compat_is_some (cv_default variable_def) in
+    let has_location_default_value := compat_is_some (cu_default variable_usage) in
+    if negb has_non_null_default_value && negb has_location_default_value then false
+    else compat_is_assignable_to variable_ty (compat_nullable location_ty)
+  else compat_is_assignable_to variable_ty location_ty.
+
+(* the class of defect D13: a `null` variable default where the spec looks for a non-null one *)
+Definition compat_null_default_class (d : compat_vardef) (u : compat_usage) : bool :=
   compat_is_non_null (cu_ty u) && negb (compat_is_non_null (cv_ty d)) &&
   match cv_default d with Some CvNull => true | _ => false end &&
   negb (compat_is_some (cu_default u)).
